@@ -176,7 +176,7 @@ pub fn sweep(cfg: &Cfg, h: &Handles, tag: &str, f: &(dyn Fn(Triple, &mut Stats, 
     total.subspace("every language-script key x every region, every language-region key x every script (extended universe)", n5, true);
     // seeded sample of full triples over the extended universe (proptest)
     let rich_set: std::collections::HashSet<u16> = rich.iter().cloned().collect();
-    let n6 = cfg.pick(1_500_000u64, 20_000_000u64);
+    let n6 = cfg.pick(4_000_000u64, 20_000_000u64);
     let strat = (1..xl as u16, 1..xs as u16, 1..xr as u16);
     let s = run_strategy(&strat, cfg.seed, &format!("{tag}-triples"), n6, |(l, s, r), st| {
         let t = Triple { l: *l, s: *s, r: *r };
